@@ -1561,6 +1561,9 @@ def ADC(
     if fs is not None:
         signal = sg.resample(signal, int(input.len() * fs / input.fs()))
 
+    signal = np.asarray(signal)
+    signal = signal.astype(np.result_type(signal, float))  # integer samples: avoid wrap-around in (signal - V_min)
+
     V_min, V_max = shortest_int(signal, 99.99)
     
     dig_signal = np.clip(
